@@ -60,7 +60,8 @@ Record pool := mkpool {
   t_soft : option Z; t_hard : option Z; dflt_lost : Z;
   scanner : bool; dirty : list Z;
   feeds : list (Z * Z * bool);     (* queued task sequences: job, number of tasks, has set_length *)
-  sigs : list (Z * Z)              (* signals sent by the last event: (pid, signum) *)
+  sigs : list (Z * Z);             (* signals sent by the last event: (pid, signum) *)
+  scan_todo : list Z               (* a scan in progress: cache keys of its snapshot not yet visited *)
 }.
 
 Inductive event :=
@@ -75,6 +76,9 @@ Inductive event :=
 | EExit (p status : Z)
 | ETick
 | EScan (lingers : bool)
+| EScanBegin                  (* the scan takes its snapshot of the cache ... *)
+| EScanStep (lingers : bool)  (* ... visits the next job of the snapshot ... *)
+| EScanEnd                    (* ... and finishes; other events may come in between *)
 | EAdvance (dt : Z)
 | EDiscard (j : Z)
 | ETerminateJob (p : Z) (sig : option Z)
@@ -109,53 +113,57 @@ Definition cached (s : pool) (j : Z) : option job :=
 Definition set_job (s : pool) (j : Z) (f : job -> job) : pool :=
   mkpool (if j <? 0 then jobs s else upd_nth (Z.to_nat j) f (jobs s)) (procs s) (wlist s) (nprocs s) (sem s) (putlocks s)
          (rst s) (now s) (pstate s) (t_soft s) (t_hard s) (dflt_lost s) (scanner s) (dirty s)
-         (feeds s) (sigs s).
+         (feeds s) (sigs s) (scan_todo s).
 Definition get_proc (s : pool) (p : Z) : option proc :=
   if p <? 0 then None else nth_error (procs s) (Z.to_nat p).
 Definition set_proc (s : pool) (p : Z) (f : proc -> proc) : pool :=
   mkpool (jobs s) (if p <? 0 then procs s else upd_nth (Z.to_nat p) f (procs s)) (wlist s) (nprocs s) (sem s) (putlocks s)
          (rst s) (now s) (pstate s) (t_soft s) (t_hard s) (dflt_lost s) (scanner s) (dirty s)
-         (feeds s) (sigs s).
+         (feeds s) (sigs s) (scan_todo s).
 Definition with_sem (s : pool) (x : LaxSem.sem) : pool :=
   mkpool (jobs s) (procs s) (wlist s) (nprocs s) x (putlocks s)
          (rst s) (now s) (pstate s) (t_soft s) (t_hard s) (dflt_lost s) (scanner s) (dirty s)
-         (feeds s) (sigs s).
+         (feeds s) (sigs s) (scan_todo s).
 Definition with_rst (s : pool) (x : Restart.rs) : pool :=
   mkpool (jobs s) (procs s) (wlist s) (nprocs s) (sem s) (putlocks s)
          x (now s) (pstate s) (t_soft s) (t_hard s) (dflt_lost s) (scanner s) (dirty s)
-         (feeds s) (sigs s).
+         (feeds s) (sigs s) (scan_todo s).
 Definition with_wlist (s : pool) (x : list Z) : pool :=
   mkpool (jobs s) (procs s) x (nprocs s) (sem s) (putlocks s)
          (rst s) (now s) (pstate s) (t_soft s) (t_hard s) (dflt_lost s) (scanner s) (dirty s)
-         (feeds s) (sigs s).
+         (feeds s) (sigs s) (scan_todo s).
 Definition with_nprocs (s : pool) (x : Z) : pool :=
   mkpool (jobs s) (procs s) (wlist s) x (sem s) (putlocks s)
          (rst s) (now s) (pstate s) (t_soft s) (t_hard s) (dflt_lost s) (scanner s) (dirty s)
-         (feeds s) (sigs s).
+         (feeds s) (sigs s) (scan_todo s).
 Definition with_now (s : pool) (x : Z) : pool :=
   mkpool (jobs s) (procs s) (wlist s) (nprocs s) (sem s) (putlocks s)
          (rst s) x (pstate s) (t_soft s) (t_hard s) (dflt_lost s) (scanner s) (dirty s)
-         (feeds s) (sigs s).
+         (feeds s) (sigs s) (scan_todo s).
 Definition with_pstate (s : pool) (x : Z) : pool :=
   mkpool (jobs s) (procs s) (wlist s) (nprocs s) (sem s) (putlocks s)
          (rst s) (now s) x (t_soft s) (t_hard s) (dflt_lost s) (scanner s) (dirty s)
-         (feeds s) (sigs s).
+         (feeds s) (sigs s) (scan_todo s).
 Definition with_dirty (s : pool) (x : list Z) : pool :=
   mkpool (jobs s) (procs s) (wlist s) (nprocs s) (sem s) (putlocks s)
          (rst s) (now s) (pstate s) (t_soft s) (t_hard s) (dflt_lost s) (scanner s) x
-         (feeds s) (sigs s).
+         (feeds s) (sigs s) (scan_todo s).
 Definition with_feeds (s : pool) (x : list (Z * Z * bool)) : pool :=
   mkpool (jobs s) (procs s) (wlist s) (nprocs s) (sem s) (putlocks s)
          (rst s) (now s) (pstate s) (t_soft s) (t_hard s) (dflt_lost s) (scanner s) (dirty s)
-         x (sigs s).
+         x (sigs s) (scan_todo s).
 Definition with_sigs (s : pool) (x : list (Z * Z)) : pool :=
   mkpool (jobs s) (procs s) (wlist s) (nprocs s) (sem s) (putlocks s)
          (rst s) (now s) (pstate s) (t_soft s) (t_hard s) (dflt_lost s) (scanner s) (dirty s)
-         (feeds s) x.
+         (feeds s) x (scan_todo s).
+Definition with_todo (s : pool) (x : list Z) : pool :=
+  mkpool (jobs s) (procs s) (wlist s) (nprocs s) (sem s) (putlocks s)
+         (rst s) (now s) (pstate s) (t_soft s) (t_hard s) (dflt_lost s) (scanner s) (dirty s)
+         (feeds s) (sigs s) x.
 Definition add_job (s : pool) (x : job) : pool :=
   mkpool (jobs s ++ [x]) (procs s) (wlist s) (nprocs s) (sem s) (putlocks s)
          (rst s) (now s) (pstate s) (t_soft s) (t_hard s) (dflt_lost s) (scanner s) (dirty s)
-         (feeds s) (sigs s).
+         (feeds s) (sigs s) (scan_todo s).
 
 Definition memZ (x : Z) (l : list Z) : bool := existsb (Z.eqb x) l.
 
@@ -419,7 +427,7 @@ Definition mark_lost (x : job) : job * bool :=
 Definition map_jobs (s : pool) (f : job -> job) : pool :=
   mkpool (map f (jobs s)) (procs s) (wlist s) (nprocs s) (sem s) (putlocks s)
          (rst s) (now s) (pstate s) (t_soft s) (t_hard s) (dflt_lost s) (scanner s) (dirty s)
-         (feeds s) (sigs s).
+         (feeds s) (sigs s) (scan_todo s).
 
 Definition mark_all_lost (s : pool) : pool :=
   map_jobs s (fun x => if lost_due s x then fst (mark_lost x) else x).
@@ -470,7 +478,7 @@ Definition start_worker (s : pool) (ix : Z) : pool :=
   let p := Z.of_nat (length (procs s)) in
   mkpool (jobs s) (procs s ++ [mkproc p ix None false false 0]) (wlist s ++ [p]) (nprocs s) (sem s)
          (putlocks s) (rst s) (now s) (pstate s) (t_soft s) (t_hard s) (dflt_lost s) (scanner s)
-         (dirty s) (feeds s) (sigs s).
+         (dirty s) (feeds s) (sigs s) (scan_todo s).
 
 Definition clean_code (c : Z) : bool := (c =? 0) || (c =? EX_RECYCLE).
 
@@ -678,6 +686,16 @@ Definition step (s : pool) (e : event) : pool * ret :=
                                          end), RNone)
   | ETick => do_tick s
   | EScan l => do_scan s l
+  | EScanBegin =>
+    if negb (scanner s) then (s, RNoScanner) else
+    let snap := map jid (filter incache (jobs s)) in
+    (with_todo (with_dirty s (filter (fun j => memZ j snap) (dirty s))) snap, RNone)
+  | EScanStep l =>
+    match scan_todo s with
+    | [] => (s, RNone)
+    | j :: r => (with_todo (scan_job l s j) r, RNone)
+    end
+  | EScanEnd => (with_todo s [], RNone)
   | EAdvance dt => (with_now s (now s + dt), RNone)
   | EDiscard j => (set_job s j j_uncache, RNone)
   | ETerminateJob p sig => do_terminate_job s p sig
@@ -706,7 +724,7 @@ Definition init (c : config) : pool :=
                   (rs_init (c_maxr c) mt) 1000 0 (c_soft c) (c_hard c) lost
                   (c_enable c || match c_hard c with Some _ => true | None => false end
                               || match c_soft c with Some _ => true | None => false end)
-                  [] [] [] in
+                  [] [] [] [] in
   start_n (Z.to_nat (c_n c)) 0 s.
 
 Definition run (c : config) (tr : list event) : pool := fold_left (fun s e => fst (step s e)) tr (init c).
